@@ -10,10 +10,15 @@ header."
 Theorems about the C01 model (Model/MapToMol.lean; tied to /repo by the correspondence of harness/c01.py
 and re-run on every transformed input by harness/c13.py).  Property theorems only; lemmas are in
 Proofs/MapToMol.lean.  Every theorem holds for all force fields, all graphs, all key types.
+The last section is about `load_library.py` (Model/LoadLibrary.lean, suffix -> parser tables and the order of
+the file loop TRANSLATED from the source on every run): which parser reads a file, in which order files are
+read, and that permuting input files changes neither acceptance nor the multiset of definitions read.
 -/
 import PolyplyVerif.Generated.Tables
 import PolyplyVerif.Model.MapToMol
 import PolyplyVerif.Proofs.MapToMol
+import PolyplyVerif.Model.LoadLibrary
+import PolyplyVerif.Proofs.LoadLibrary
 
 set_option linter.unusedSectionVars false
 
@@ -235,5 +240,91 @@ example : (runAll Tables.proteinResnames []
      ⟨Example.ff, ⟨Example.nodes, []⟩, [], [], none⟩]).getLast? =
     some (genParams Tables.proteinResnames ⟨Example.ff, ⟨Example.nodes, []⟩, [], [], none⟩) :=
   C13_history _ [] [_, _] _
+
+section LoadLibrary
+open PolyplyVerif.LoadLibrary PolyplyVerif.LibraryTables
+
+/-! ### input files: which parser, which order (`load_library.py`) -/
+
+/-- **C13_parser_table** (about the tables TRANSLATED from load_library.py on every run).  A force-field file is
+read by the parser its suffix names — `.rtp` by `read_rtp`, `.ff` by `read_ff`, `.itp` by `read_polyply`,
+`.bib` by `read_bib`, build files `.bld` by `read_build_file` — no suffix is listed twice (the dispatch is a
+function whatever the order of the table), the suffix is taken without its dot, `paths` is
+`[library files, user files]`, and the loop visits the user files before the library files. -/
+theorem C13_parser_table :
+    forceFieldParsers.Perm [("rtp", "read_rtp"), ("ff", "read_ff"), ("itp", "read_polyply"), ("bib", "read_bib")] ∧
+    (forceFieldParsers.map (·.1)).Nodup ∧
+    buildFileParsers = [("bld", "read_build_file")] ∧
+    suffixDrop = 1 ∧ pathsUnpack = ["lib_files", "user_files"] ∧ readOrder = ["user_files", "lib_files"] := by
+  decide
+
+example : lookup forceFieldParsers "itp" = some "read_polyply" ∧ lookup forceFieldParsers "gro" = none := by decide
+
+/-- **C13_read_order.**  `read_options_from_files([lib, user], …)` for ANY lists of files and ANY parser table:
+it raises iff some file that is not (also) a library file has a suffix the table does not know — then the
+exception names such a file — and otherwise parses exactly the files whose suffix the table knows, each with
+the parser of its suffix, the user files first, then the library files, each group in the given order;
+library files with other suffixes are skipped. -/
+theorem C13_read_order (parsers : List (String × String)) (lib user : List File) :
+    ((∀ f ∈ user ++ lib, ¬ Rejected parsers (lib, user) f) →
+      readOptions parsers (lib, user) = .ok ((user ++ lib).filterMap (callOf parsers))) ∧
+    ((∃ f ∈ user ++ lib, Rejected parsers (lib, user) f) →
+      ∃ g ∈ user ++ lib, Rejected parsers (lib, user) g ∧ readOptions parsers (lib, user) = .error g.path) :=
+  ⟨readOptions_ok parsers lib user, fun ⟨f, hf, hr⟩ => readOptions_error parsers lib user f hf hr⟩
+
+/-- two user files and a library with a `.ff`, a `.bld` and a `README` -/
+def exUser : List File := [⟨"u/a.itp", ".itp"⟩, ⟨"u/b.ff", ".ff"⟩]
+def exLib : List File := [⟨"lib/x.ff", ".ff"⟩, ⟨"lib/x.bld", ".bld"⟩, ⟨"lib/README", ""⟩]
+
+example : (readOptions forceFieldParsers (exLib, exUser)).toOption =
+    some [("read_polyply", "u/a.itp"), ("read_ff", "u/b.ff"), ("read_ff", "lib/x.ff")] ∧
+    (readOptions forceFieldParsers (exLib, exUser ++ [⟨"u/c.gro", ".gro"⟩])).toOption = none := by
+  decide
+
+/-- **C13_file_order.**  Permuting the user files among themselves and the library files among themselves
+(the order of `-f` arguments, the order in which the OS lists a library directory) changes neither
+acceptance nor the MULTISET of parse calls. -/
+theorem C13_file_order (parsers : List (String × String)) (lib lib' user user' : List File)
+    (hl : lib.Perm lib') (hu : user.Perm user') :
+    match readOptions parsers (lib, user), readOptions parsers (lib', user') with
+    | .ok cs, .ok cs' => cs.Perm cs'
+    | .error _, .error _ => True
+    | _, _ => False := by
+  have hperm : (user ++ lib).Perm (user' ++ lib') := hu.append hl
+  by_cases h : ∀ f ∈ user ++ lib, ¬ Rejected parsers (lib, user) f
+  · have h' : ∀ f ∈ user' ++ lib', ¬ Rejected parsers (lib', user') f := by
+      intro f hf hr
+      exact h f (hperm.mem_iff.mpr hf) ((rejected_perm parsers lib lib' user user' hl f).mpr hr)
+    rw [readOptions_ok parsers lib user h, readOptions_ok parsers lib' user' h']
+    exact hperm.filterMap _
+  · have hex : ∃ f, f ∈ user ++ lib ∧ Rejected parsers (lib, user) f := by
+      apply Classical.byContradiction
+      intro hne
+      exact h (fun f hf hr => hne ⟨f, hf, hr⟩)
+    obtain ⟨f, hf, hr⟩ := hex
+    obtain ⟨g, _, _, he⟩ := readOptions_error parsers lib user f hf hr
+    obtain ⟨g', _, _, he'⟩ := readOptions_error parsers lib' user' f (hperm.mem_iff.mp hf)
+      ((rejected_perm parsers lib lib' user user' hl f).mp hr)
+    rw [he, he']
+    trivial
+
+example : (readOptions forceFieldParsers (exLib.reverse, exUser.reverse)).toOption =
+    some [("read_ff", "u/b.ff"), ("read_polyply", "u/a.itp"), ("read_ff", "lib/x.ff")] := by decide
+
+/-- **C13_definitions_file_order.**  If no two of the files that are read define the same name, every
+permutation of the parse calls (hence of the input files, `C13_file_order`) leaves the same definition under
+every name in the storage; and in general the definition kept under a name is the LAST one in reading order
+(so a library file overrides a user file that defines the same name — user files are read first). -/
+theorem C13_definitions_file_order {δ : Type} (defs : String → List (String × δ)) (calls calls' : List (String × String))
+    (k : String) :
+    Links.lookupKV (storage defs calls) k = Links.lastFor (calls.flatMap (fun c => defs c.2)) k ∧
+    (calls.Perm calls' → ((calls.flatMap (fun c => defs c.2)).map (·.1)).Nodup →
+      Links.lookupKV (storage defs calls) k = Links.lookupKV (storage defs calls') k) :=
+  ⟨storage_lookup defs calls k, fun hp hk => storage_perm defs calls calls' hp hk k⟩
+
+example : Links.lookupKV (storage (fun p => if p == "u/a.itp" then [("PEO", 1)] else if p == "lib/x.ff" then [("PEO", 2), ("PS", 3)] else [])
+    [("read_polyply", "u/a.itp"), ("read_ff", "lib/x.ff")]) "PEO" = some 2 := by decide
+
+end LoadLibrary
 
 end PolyplyVerif.C13
